@@ -11,6 +11,8 @@ import (
 	"sort"
 	"strings"
 
+	xhtml "golang.org/x/net/html"
+
 	"verifharness/hx"
 )
 
@@ -532,5 +534,82 @@ func c11RDFa(r *hx.Rand, n int, out *hx.Out, _ []string) {
 		}
 		out.Emit(hx.Case{Kind: "K/C11/rdfa/iso", Line: "rdfa\t" + hx.X(c11Location) + "\t" + strings.TrimSuffix(tk.String(), ","), Impl: impl, Class: cls, NonTri: len(res.quads) >= 2, Oracle: oracle, Spec: true,
 			Desc: fmt.Sprintf("location=%q forms=%v document: %s", c11Location, fs, doc)})
+	}
+}
+
+// c11-rdfa-seeds: the HTML5 documents of the rdfa.info test suite shipped in the repository, read by the decoder and by the
+// Coq model (from the tree golang.org/x/net/html builds); documents which use what the model leaves out (XMLLiteral / HTML
+// literals, @datetime and time, rdfa:copy, xmlns:, xml:lang / xml:base, foreign content) are skipped.
+func init() { families["c11-rdfa-seeds"] = c11RDFaSeeds }
+
+var c11SeedSkip = []string{"datetime", "<time", "XMLLiteral", "rdf:HTML", "rdfa:copy", "rdfa:Pattern", "xmlns:", "xml:lang", "xml:base", "<svg", "<math", "<template", "<noscript", "<table", "<select", "<frameset"}
+
+func c11TreeOf(n *xhtml.Node) *xn {
+	switch n.Type {
+	case xhtml.TextNode:
+		return &xn{isText: true, text: n.Data}
+	case xhtml.ElementNode:
+		e := &xn{name: n.Data}
+		for _, a := range n.Attr {
+			k := a.Key
+			if a.Namespace != "" {
+				k = a.Namespace + ":" + k
+			}
+			e.attrs = append(e.attrs, [2]string{k, a.Val})
+		}
+		for c := n.FirstChild; c != nil; c = c.NextSibling {
+			if t := c11TreeOf(c); t != nil {
+				e.kids = append(e.kids, t)
+			}
+		}
+		return e
+	}
+	return nil
+}
+
+func c11RDFaSeeds(r *hx.Rand, n int, out *hx.Out, _ []string) {
+	var files []seedFile
+	for _, s := range seeds("html") {
+		if strings.Contains(s.path, "rdfa1.1/html5/") {
+			files = append(files, s)
+		}
+	}
+	for c := 0; c < n && c < len(files); c++ {
+		s := files[c]
+		skip := ""
+		for _, w := range c11SeedSkip {
+			if strings.Contains(string(s.data), w) {
+				skip = w
+				break
+			}
+		}
+		location := "http://rdfa.example/test-suite/" + s.path[strings.LastIndexByte(s.path, '/')+1:]
+		doc, err := xhtml.Parse(strings.NewReader(string(s.data)))
+		var root *xn
+		if err == nil {
+			for c := doc.FirstChild; c != nil; c = c.NextSibling {
+				if c.Type == xhtml.ElementNode {
+					root = c11TreeOf(c)
+				}
+			}
+		}
+		if skip != "" || root == nil {
+			out.Emit(hx.Case{Kind: "K/C11/rdfa-seeds-skip", Impl: "skip", Class: "outside the model: " + skip, Desc: s.path})
+			continue
+		}
+		res := zooRun("htmlrdfa", s.data, zooOpts{base: location})
+		if res.verdict != "ok" {
+			out.Emit(hx.Case{Kind: "K/C11/rdfa-seeds-skip", Impl: res.verdict, Class: "decoder does not accept", Desc: s.path})
+			continue
+		}
+		nm := hx.NewNamer()
+		var sts []string
+		for _, q := range res.quads {
+			sts = append(sts, c09Term(q.Triple.Subject, nm)+" "+c09Term(q.Triple.Predicate, nm)+" "+c09Term(q.Triple.Object, nm))
+		}
+		var tk strings.Builder
+		root.tokens(&tk)
+		out.Emit(hx.Case{Kind: "K/C11/rdfa-seeds/iso", Line: "rdfa\t" + hx.X(location) + "\t" + strings.TrimSuffix(tk.String(), ","), Impl: strings.Join(sts, ";"), Class: "rdfa.info suite document", NonTri: len(res.quads) >= 2, Spec: true,
+			Desc: fmt.Sprintf("location=%q file=%s document: %s", location, s.path, string(s.data))})
 	}
 }
